@@ -77,5 +77,7 @@ Spec == Init /\ [][Next]_vars
 RoundTrip == [][(last.op = "write" /\ last.ok /\ last.fresh /\ last'.op = "read" /\ last'.n = last.n /\ last'.mode = last.mode
                  /\ (last.mode = "archive") = (last'.mode = "archive"))
                     => last'.res = last.doc]_vars
-View == <<fs, arch, last>>
+\* the previous action is part of the view: "written then read back" histories are not shadowed by other histories reaching the same files
+Prev == IF Len(hist) >= 2 THEN hist[Len(hist) - 1] ELSE <<>>
+View == <<fs, arch, last, Prev>>
 ============================================================================
